@@ -24,6 +24,8 @@
 (*                Means clause pins every centroid to sums/size exactly)   *)
 (* Event Bbd    (one filtering step with centroids cn[c]/cd[c])            *)
 (*   BbdStatus, Nearest, Counts, Sums, Distortion  (KMeansProps)           *)
+(*   cls=small1d  fits on the scope of Lloyd.tla: the final (y, size) must  *)
+(*                be the end of some behaviour of that model, else DRIFT   *)
 (*   exp          present on events replayed from BbdFilter.tla: the       *)
 (*                model's own outputs.  A difference that does not falsify *)
 (*                a predicate is MODEL-DRIFT (counted, not a violation).   *)
@@ -39,13 +41,31 @@ EXTENDS KMeansProps, TLC, Json, IOUtils
 
 Rec == ndJsonDeserialize(IOEnv.TRACE)
 
+(***************************************************************************)
+(* Second input (may be an empty file): the terminal states of Lloyd.tla   *)
+(* for its quick scope (1-D rows on {0..4}, 2..5 rows, k = 2, max_iter in  *)
+(* 1..3), one JSON object per line as printed by Lloyd!Emit.  The harness  *)
+(* fits exactly these data sets (cls = "small1d"); a real fit whose final  *)
+(* (y, size) is not the end of any behaviour of the design model is        *)
+(* MODEL-DRIFT: the model would then not over-approximate the code.        *)
+(* Indexed once by (data, max_iter); both definitions are constant level,  *)
+(* so TLC evaluates them a single time.                                    *)
+(***************************************************************************)
+Model == ndJsonDeserialize(IOEnv.MODEL)
+ModelKeys == { <<Model[i].X, Model[i].maxIter>> : i \in 1..Len(Model) }
+ModelIdx == [key \in ModelKeys |->
+                { <<Model[i].y, Model[i].size>> : i \in { m \in 1..Len(Model) : <<Model[m].X, Model[m].maxIter>> = key } }]
+
+InModelScope(e) == e.cls = "small1d" /\ e.k = 2 /\ <<e.X, e.maxIter>> \in ModelKeys
+ReachedByModel(e) == <<e.y, e.size>> \in ModelIdx[<<e.X, e.maxIter>>]
+
 ExactMaxN == 128
 
 VARIABLES l, nbad, hits, nt, drift
 vars == <<l, nbad, hits, nt, drift>>
 
 HitNames == {"KMFit", "FitLattice", "FitCont", "FitF32", "Means", "PredictFx", "PredictExact", "PredictTie",
-             "EmptyCluster", "Unconstrained", "FitNotOk",
+             "EmptyCluster", "Unconstrained", "FitNotOk", "FitModel",
              "Bbd", "BbdTie", "BbdCoincident", "BbdEmpty", "BbdRational", "BbdModel", "Drift"}
 
 AllPositive(v) == \A c \in 1..Len(v) : v[c] > 0
@@ -59,10 +79,6 @@ TieSeen(T, cd2, ans) ==
 (* ------------------------------------------------------------------ KMFit *)
 ExactApplies(e) == e.exact /\ e.n <= ExactMaxN /\ AllPositive(e.size)
 
-PredictExactWith(e, sums, T, cd2) ==
-    /\ Len(e.pred) = Len(e.Q)
-    /\ \A i \in 1..Len(e.Q) : e.pred[i] \in 0..(e.k - 1) /\ IsNearest(T[i], cd2, e.pred[i] + 1)
-
 (* first failing clause of a fit whose labels are already known to be in range;
    sums = ClusterSums(X, y, k, d) is computed once and handed down *)
 FitClause2(e, sums) ==
@@ -71,7 +87,7 @@ FitClause2(e, sums) ==
     ELSE IF ~MeansFx(sums, e.size, e.cfx, e.xs, e.k, e.d) THEN "Means"
     ELSE IF e.pstatus # "ok" THEN "PredictStatus"
     ELSE IF ~PredictFx(e.Q8, e.pred, e.c8) THEN "PredictFx"
-    ELSE IF ExactApplies(e) /\ ~PredictExactWith(e, sums, SqTable(e.Q, sums, e.size), Sq(e.size))
+    ELSE IF ExactApplies(e) /\ ~PredictExact(e.Q, e.pred, sums, e.size)
          THEN "PredictExact"
     ELSE ""
 
@@ -90,6 +106,8 @@ FitTags(e) ==
          \cup (IF e.xs = 1 THEN {"FitCont"} ELSE {"FitLattice"})
          \cup (IF e.prec = 32 THEN {"FitF32"} ELSE {})
          \cup (IF ~AllPositive(e.size) THEN {"EmptyCluster"} ELSE {})
+         \cup (IF InModelScope(e) THEN {"FitModel"} ELSE {})
+         \cup (IF InModelScope(e) /\ ~ReachedByModel(e) THEN {"Drift"} ELSE {})
          \cup (IF ExactApplies(e)
                THEN {"PredictExact"} \cup
                     (LET sums == ClusterSums(e.X, e.y, e.k, e.d)
@@ -139,16 +157,18 @@ Account(e, clause, tags) ==
     /\ nt' = IF clause = "" /\ tags \cap NonTrivialTags # {} THEN Append(nt, l) ELSE nt
     /\ drift' = IF "Drift" \in tags THEN Append(drift, l) ELSE drift
 
+(* the clause is an operator ARGUMENT, hence evaluated once per event *)
+AccountFit(e, clause) ==
+    Account(e, clause, IF clause = "" \/ clause = "FitStatus" THEN FitTags(e) ELSE {"KMFit"})
+AccountBbd(e, clause) ==
+    Account(e, clause, IF clause = "" THEN BbdTags(e) ELSE {"Bbd"})
+
 Step ==
     LET e == Rec[l] IN
     /\ l <= Len(Rec)
     /\ l' = l + 1
-    /\ CASE e.ev = "KMFit" ->
-              LET clause == FitClause(e) IN
-              Account(e, clause, IF clause = "" \/ clause = "FitStatus" THEN FitTags(e) ELSE {"KMFit"})
-         [] e.ev = "Bbd" ->
-              LET clause == BbdClause(e) IN
-              Account(e, clause, IF clause = "" THEN BbdTags(e) ELSE {"Bbd"})
+    /\ CASE e.ev = "KMFit" -> AccountFit(e, FitClause(e))
+         [] e.ev = "Bbd" -> AccountBbd(e, BbdClause(e))
          [] OTHER -> Account(e, "unknown event", {})
 
 Init == /\ l = 1 /\ nbad = 0 /\ nt = <<>> /\ drift = <<>>
